@@ -1155,7 +1155,35 @@ func c05R9(a *A, r *Roles) {
 				}
 				// the context is the function's parameter, which Stream feeds with its own (or a derived) context
 				okCtx := false
-				if p, ok := resolve(done.Common().Value).(*ssa.Parameter); ok && f == r.Parser {
+				// the context may reach the select through a helper of the parser: follow the parameter to the parser's own
+				cv, cf := resolve(done.Common().Value), f
+				for hop := 0; hop < 3 && cf != r.Parser; hop++ {
+					p, isP := cv.(*ssa.Parameter)
+					if !isP {
+						break
+					}
+					idx := -1
+					for i, q := range cf.Params {
+						if q == p {
+							idx = i
+						}
+					}
+					var site *ssa.Call
+					nSites := 0
+					for g := range fns {
+						instrs(g, func(i2 ssa.Instruction) {
+							if c, ok := i2.(*ssa.Call); ok && c.Common().StaticCallee() == cf {
+								site = c
+								nSites++
+							}
+						})
+					}
+					if idx < 0 || nSites != 1 || idx >= len(site.Common().Args) {
+						break
+					}
+					cv, cf = resolve(site.Common().Args[idx]), site.Parent()
+				}
+				if p, ok := cv.(*ssa.Parameter); ok && cf == r.Parser {
 					for i, q := range r.Parser.Params {
 						if q == p {
 							arg := resolve(r.ParserCall.Common().Args[i])
